@@ -393,7 +393,25 @@ def nontrivial_features(m, net):
     return tags
 
 
-def run_stream(ctx, prop, n_models, regimes=("calibrated", "extreme", "boundary"), features=None, focus=None):
+def run_stream(ctx, prop, n_models, regimes=("calibrated", "extreme", "boundary"), features=None, focus=None, workers=None):
+    """
+    Parallel front end of `_run_stream` (forked workers with independent seeded sub-streams when there is enough work)."""
+    if workers is None:
+        workers = 12 if n_models >= 200 else 1
+    if workers > 1:
+        core.parallel(ctx, _stream_worker, n_models, workers, prop=prop, regimes=regimes, features=features, focus=focus)
+    else:
+        _run_stream(ctx, prop, n_models, regimes, features, focus)
+
+
+def _stream_worker(sub, n, prop=None, regimes=None, features=None, focus=None):
+    import logging
+    import atomica
+    atomica.logger.setLevel(logging.ERROR)
+    _run_stream(sub, prop, n, regimes, features, focus)
+
+
+def _run_stream(ctx, prop, n_models, regimes=("calibrated", "extreme", "boundary"), features=None, focus=None):
     """
     Generate models, run mode B + oracles; record into ctx what concerns `prop`.
     `focus`: optional callable(r) -> features dict, to weight the generator toward what the property is about.
@@ -417,6 +435,10 @@ def run_stream(ctx, prop, n_models, regimes=("calibrated", "extreme", "boundary"
             continue
         rej_total += rej
         net = genfw.extract_net(m)
+        if sum(net["nrows"]) * max(1, len(net["links"])) * len(m.t) > 400000:
+            # keyring with thousands of rows (duration >> dt): exact replay of every step would take minutes; counted, not compared
+            ctx.count("gen.skipped_too_large")
+            continue
         tags = nontrivial_features(m, net)
         for tg in tags:
             ctx.count(tg)
